@@ -1,6 +1,6 @@
 """C08 — module mode: the trait's methods are exactly the module's non-private functions."""
 from ..common import Report
-from ..corpus import load
+from ..corpus import load, load_repo_tests
 from ..wrules import FnModView, trait_methods, last_seg, check_fnmod_delegation
 from .c13 import resolve_vis
 
@@ -9,8 +9,10 @@ def run(tier):
     rep = Report("C08", tier, "translation_validation")
     configs = ["plain", "unimock_test"] if tier == "quick" else ["plain", "test", "unimock", "unimock_test"]
     programs = 0
-    for cfg in configs:
-        ld = load(rep, "pos", cfg)
+    loaded = [(cfg, load(rep, "pos", cfg)) for cfg in configs]
+    if tier == "thorough":
+        loaded.append(("unimock_test", load_repo_tests(rep)))
+    for cfg, ld in loaded:
         crate = ld.crate
         for exp in crate.expansions:
             if exp.mode != "mod":
@@ -44,6 +46,8 @@ def run(tier):
             check_fnmod_delegation(rep, crate, exp, cfg)
             # the trait is importable from the parent under the requested name and visibility
             parent = crate.get(exp.module)
+            if parent is not None and parent["kind"] != "Mod":
+                continue  # module declared inside a function body: no module parent to re-export into
             entries = [c for c in (parent or {}).get("children", []) if c["name"] == exp.attr.trait_name and c["res_kind"] == "Trait"]
             uses = [d for d in exp.defs if d["kind"] == "Use" and d.get("parent") == exp.module]
             if not entries or not uses:
